@@ -92,6 +92,16 @@ Qed.
 Lemma compile_obj_mc_ok : forall g o m vec clr, mc_ok (module_cache g) -> mc_ok (module_cache (fst (compile_obj g o m vec clr))).
 Proof. intros. rewrite compile_obj_mc. apply compile_core_mc_ok. assumption. Qed.
 
+Definition is_err (o : obs) : bool := match o with OErr _ => true | _ => false end.
+
+Lemma compile_in_fst : forall g o m vec clr,
+  fst (compile_in_obj g o m vec clr) = fst (compile_obj (set_inl (write_input_labels (input_labels g)) g) o m vec clr).
+Proof. intros. unfold compile_in_obj. destruct (compile_obj _ _ _ _ _). reflexivity. Qed.
+
+Lemma compile_in_err : forall g o m vec clr,
+  is_err (snd (compile_in_obj g o m vec clr)) = is_err (snd (compile_obj (set_inl (write_input_labels (input_labels g)) g) o m vec clr)).
+Proof. intros. unfold compile_in_obj. destruct (compile_obj _ _ _ _ _) as [g1 ob]. destruct ob; reflexivity. Qed.
+
 Lemma from_yaml_mc : forall g, module_cache (fst (from_yaml g)) = module_cache g.
 Proof. intros. unfold from_yaml. destruct (template_cache g); reflexivity. Qed.
 
@@ -101,6 +111,7 @@ Proof.
   - apply compile_obj_mc_ok. exact H.
   - apply compile_obj_mc_ok. exact H.
   - apply compile_obj_mc_ok. exact H.
+  - cbn [new_obj]. rewrite compile_in_fst. apply compile_obj_mc_ok. exact H.
   - cbn [new_obj]. rewrite fcompile_obj_mc. exact H.
   - destruct (from_yaml g) as [g1 e] eqn:E. apply compile_obj_mc_ok. cbn.
     replace g1 with (fst (from_yaml g)) by (rewrite E; reflexivity). rewrite from_yaml_mc. exact H.
@@ -387,6 +398,9 @@ Proof.
     rewrite D. exact H.
   - match goal with |- context [compile_obj ?G ?O ?M ?V ?C] => destruct (compile_obj_frame G O M V C) as (_ & _ & _ & D & _) end.
     rewrite D. exact H.
+  - rewrite compile_in_fst.
+    match goal with |- context [compile_obj ?G ?O ?M ?V ?C] => destruct (compile_obj_frame G O M V C) as (_ & _ & _ & D & _) end.
+    rewrite D. exact H.
   - apply fcompile_obj_ext. cbn. exact H.
   - unfold from_yaml. destruct (template_cache g); cbn;
       match goal with |- context [compile_obj ?G ?O ?M ?V ?C] => destruct (compile_obj_frame G O M V C) as (_ & _ & _ & D & _) end;
@@ -398,7 +412,6 @@ Proof.
 Qed.
 
 (* ------------------------------------------------------------------ a syntactic guard: disciplined histories *)
-Definition is_err (o : obs) : bool := match o with OErr _ => true | _ => false end.
 (* errors that matter: a compilation that raises leaves the caches dirty (the clear=True never runs) *)
 Fixpoint no_compile_error_with (fx : bool) (h : list hop) (g : G) : bool :=
   match h with
@@ -435,7 +448,7 @@ Proof.
     change (fold_left (fun g o => fst (step_with fx g o)) h (fst (step_with fx g o))) with (run_hist_with fx h (fst (step_with fx g o))).
     cbn [no_compile_error_with] in Hn. apply andb_true_iff in Hn as [Hn1 Hn2].
     pose proof (caches_clean_fields g Hc) as (A & B & C & D & E & F & P).
-    destruct o as [m vec clr ip|m vec clr ip|m vec clr ip|m file clr|clr|v|hh|hh|tc ic]; cbn [disciplined] in Hd.
+    destruct o as [m vec clr ip|m vec clr ip|m vec clr ip|m vec clr ip|m file clr|clr|v|hh|hh|tc ic]; cbn [disciplined] in Hd.
     + apply andb_true_iff in Hd as [Hclr Hd]. subst clr.
       apply negb_true_iff in Hn1. cbn [step_with new_obj] in *.
       match type of Hn1 with is_err (snd (compile_obj ?G ?O _ _ _)) = _ =>
@@ -448,6 +461,12 @@ Proof.
       eapply IH; eauto. intros X. unfold template_clean. rewrite K2. cbn. apply Ht. exact X.
     + apply andb_true_iff in Hd as [Hclr Hd]. subst clr.
       apply negb_true_iff in Hn1. cbn [step_with new_obj] in *.
+      match type of Hn1 with is_err (snd (compile_obj ?G ?O _ _ _)) = _ =>
+        destruct (compile_obj_clean G O m vec P (not_err _ Hn1)) as (K1 & K2 & _) end.
+      eapply IH; eauto. intros X. unfold template_clean. rewrite K2. cbn. apply Ht. exact X.
+    + apply andb_true_iff in Hd as [Hclr Hd]. subst clr.
+      apply negb_true_iff in Hn1. cbn [step_with new_obj] in *.
+      rewrite compile_in_err in Hn1. rewrite compile_in_fst in *.
       match type of Hn1 with is_err (snd (compile_obj ?G ?O _ _ _)) = _ =>
         destruct (compile_obj_clean G O m vec P (not_err _ Hn1)) as (K1 & K2 & _) end.
       eapply IH; eauto. intros X. unfold template_clean. rewrite K2. cbn. apply Ht. exact X.
